@@ -1,6 +1,7 @@
 """C01 — emitted 6502 code computes what the C source says.
 
-proof   : Props/C01.v: the 6502 flag semantics of CMP; the branch sequences the generator emits
+proof   : Props/C01.v: 39 lowering templates (assignments, 8/16-bit arithmetic, ++/--, shifts, zero/sign
+          extension) proved on Sem.run to compute the C value for all states; the 6502 flag semantics of CMP; the branch sequences the generator emits
           for == != < > <= >= reach their label exactly when the relation holds (unsigned: all bytes;
           signed: when the subtraction does not overflow — the overflow case is refuted: known
           finding); the negation / operand-swap tables; the compare-with-zero shortcut
@@ -20,6 +21,7 @@ from lib.gen_c import gen_program, Prog
 from lib.oracle import *
 from lib.features import features
 from lib.gentab import run_gentab
+from lib.gentpl import run_gentpl
 
 LEVEL = 'proof'
 
@@ -53,6 +55,12 @@ def run(ctx):
     ncell, tab_mism, _ = run_gentab()
     ctx.cov['correspondence']['corr-M generator comparison tables'] = {'cells': ncell, 'mismatches': len(tab_mism), 'exhaustive': True}
     ctx.cov['evaluations'] = ncell
+    # corr-M: the lowering templates of Model/GenTemplates.v vs what the generator emits
+    ntpl, tpl_mism = run_gentpl()
+    ctx.cov['correspondence']['corr-M generator lowering templates'] = {'templates': ntpl, 'mismatches': len(tpl_mism), 'exhaustive': True}
+    ctx.cov['evaluations'] += ntpl
+    tab_mism = tab_mism + tpl_mism
+    ncell += ntpl
     stats = {}
     viol = []
     shrunk_budget = 12 if quick else 120
@@ -107,7 +115,7 @@ def run(ctx):
     for v in viol[:3]:
         ctx.violation('c01', v)
     if tab_mism and not viol:
-        ctx.violation_noinput('Model/GenTables.v no longer matches the generator on %d of %d cells; first: %s'
+        ctx.violation_noinput('Model/GenTables.v / GenTemplates.v no longer match the generator on %d of %d cells; first: %s'
                               % (len(tab_mism), ncell, json.dumps(tab_mism[0])[:1500]), 'corr-M:gen_tables')
     ctx.cov['rule'] = ('tools/lib/gen_c.py: globals of char/signed char/short/array/const table, X and Y, arithmetic, bitwise, shifts, '
                        'comparisons, logical operators, ternary, assignment forms, ++/--, if/else, for/while/do, switch with fall-through, '
